@@ -17,3 +17,11 @@ add("C16", "rapid-generated grammars x sentences; _onBounds event log vs. spans 
     "Generated-input search: every grammar compiled with and without _onBounds; exact sequence of (value, first, last) calls compared with the reference tree's reductions; differential run shows the hook changes nothing else.",
     "Same trusted base as C03; for *! helpers only value and ordered bounds are compared.",
     "DESIGN.md §3 C16")
+add("C05", "rapid-generated operator tables x operator chains vs. independent precedence-climbing parser (differential), on lox's table and on compiled parsers",
+    "Generated-input search over operator tables (levels, associativities, several operators per level, shuffled text order) and chains incl. every chain of <=3 operators for small tables; grouping compared with a precedence-climbing reference. The @right defect is a listed known finding attributed by an exact signature (tree equals the all-@left tree).",
+    "Trusts the precedence-climbing reference; mixed associativity on one level is outside the domain (undocumented).",
+    "DESIGN.md §3 C05")
+add("C09", "rapid-generated grammars with @error x token sequences incl. lexer ERROR tokens (exhaustive up to length 3-4 for small alphabets); four invariants decided with Earley on G' and step bounds",
+    "Generated-input search on compiled parsers: termination by step bounds (re-run at 100x before reporting), no silent acceptance, blame = end of shortest non-viable prefix, consumed symbols form a sentence of G'. Three genuine defects found this way were repaired; one residual (@error? absorbing an Error) is a listed known finding.",
+    "Trusts Earley/viable-prefix computation; *! and @list are replaced by * and + in this check because facet 4 reads consumed symbols off the result tree.",
+    "DESIGN.md §3 C09")
